@@ -111,6 +111,31 @@ def run(ck):
     l2s = ck.rng.sample(l2, n2) if n2 < len(l2) else l2
     terms = l1 + lq + l2s
     evs, skipped = simplify_events(ck, terms, env)
+    # second pass in an environment whose CONSTANTS were all created before any symbol: node ids (which the
+    # simplifier sorts commutative arguments by) then order constants before symbols - the opposite of pass one
+    env2 = fresh_env()
+
+    def consts(j, acc):
+        if j["op"].endswith("_constant"):
+            acc.append(j)
+        for c in j["a"]:
+            consts(c, acc)
+        return acc
+    arith = [j for j in l2 if j["op"] in ("plus", "minus", "times") and any(c["op"] in ("plus", "minus", "times") for c in j["a"])]
+    sub = l1 + ((arith + ck.rng.sample(l2s, min(len(l2s), 3000))) if quick else l2)
+    seen = set()
+    for j in sub:
+        for c in consts(j, []):
+            key = term_io.term_key(c)
+            if key not in seen:
+                seen.add(key)
+                try:
+                    term_io.build_public(c, env2)
+                except Exception:
+                    pass
+    evs2, skipped2 = simplify_events(ck, sub, env2, id0=len(terms) + 10)
+    evs += evs2
+    ck.part("constants_first_pass", terms=len(sub), constants_precreated=len(seen))
     ck.part("corpus", L1=len(l1), LQ=len(lq), L2_total=len(l2), L2_used=len(l2s), constructor_rejected=skipped)
     verdicts, st = tlc.validate_events("Trace_Pure", evs, constants={"Seed": ck.seed % 1000, "Cap": cap})
     ck.add_tlc(st)
